@@ -37,12 +37,14 @@ AS_VARIANTS = [
     {"zoo": "Z8"},
     {"zoo": "Z8", "wave": True, "relief": True},
     {"zoo": "Z8", "pm": True},
+    {"zoo": "Z8", "geo": True},
     {"zoo": "Z9"},
     {"zoo": "Z9", "same_shape": True},
     {"zoo": "Z9", "rotational": True},
     {"zoo": "Z10"},
     {"zoo": "Z10", "no_reserve": True},
     {"zoo": "Z11", "compressible": True},
+    {"zoo": "Z11", "compressible": True, "rotational": True},
     {"zoo": "Z11", "ground": True},
     {"zoo": "Z12", "wingbox": False},
     {"zoo": "Z12", "wingbox": True},
